@@ -138,10 +138,10 @@ func ExecProc(bin, dir string, pc *ProcCase) (Outcome, string, error) {
 	go func() { done <- cmd.Wait() }()
 	select {
 	case <-done:
-	case <-time.After(60 * time.Second):
+	case <-time.After(20 * time.Second):
 		cmd.Process.Kill()
 		<-done
-		return Outcome{}, "", fmt.Errorf("pql binary did not exit within 60 s (args %q)", args)
+		return Outcome{Hang: true}, strings.Join(args, " "), nil
 	}
 	o := Outcome{}
 	code := cmd.ProcessState.ExitCode()
